@@ -214,7 +214,7 @@ pub fn run(ctx: &Ctx) {
         let max_len = max_len_for(v, ctx);
         ctx.prop(
             &format!("history/{}", v.name()),
-            ctx.n(4000, 60_000),
+            ctx.n(4000, 300_000),
             || history_strategy(max_len, max_ops, true),
             |ops: &Vec<Op>| check(v, ops, max_len),
         );
@@ -223,7 +223,7 @@ pub fn run(ctx: &Ctx) {
         let max_len = max_len_for(v, ctx);
         ctx.prop(
             &format!("wrap/{}", v.name()),
-            ctx.n(150, 3000),
+            ctx.n(150, 10_000),
             || wrap_history_strategy(max_len),
             |ops: &Vec<Op>| check(v, ops, max_len),
         );
